@@ -240,6 +240,37 @@ def instance_reuse(run, cases, rows, nprng):
     run.extra["instance_reuse_applications"] = n
 
 
+def current_attributes(run, cases, rows):
+    """`Deltas.concatenate` is a documented public attribute: the layout of the result follows its current value."""
+    n = 0
+    for c, row in zip(cases, rows):
+        if c["op"] != "deltas" or n >= 60:
+            continue
+        other = dict(c)
+        other["cat"] = not c["cat"]
+        sh = tuple(c["shape"])
+        x = (np.arange(int(np.prod(sh))) + 1).reshape(sh).astype(np.float64)
+        try:
+            inst = build(other)
+            if int(np.prod(sh)) and n % 2:
+                try:
+                    inst.apply(x, axis=c["axis"])  # (target_axis may only be valid for the other layout)
+                except Exception:
+                    pass
+            inst.concatenate = c["cat"]
+            got = inst.apply(x, axis=c["axis"])
+            fresh = build(c).apply(x, axis=c["axis"])
+        except Exception as e:
+            run.violation({"kind": "deltas_with_reassigned_concatenate_raised", "case": c, "error": repr(e)})
+            continue
+        n += 1
+        run.evaluations += 1
+        if tuple(got.shape) != tuple(row["shape"]) or got.shape != fresh.shape or not np.array_equal(got, fresh):
+            run.violation({"kind": "deltas_ignores_current_concatenate_attribute", "case": c, "got_shape": list(got.shape),
+                           "definition_shape": row["shape"]})
+    run.extra["reassigned_concatenate_applications"] = n
+
+
 def run(tier, seed):
     run = common.Run("C15", tier, seed)
     rng = random.Random(seed)
@@ -256,6 +287,7 @@ def run(tier, seed):
     for k, (c, row) in enumerate(zip(cases, rows)):
         check_case(run, c, row, nprng, k)
     instance_reuse(run, cases, rows, nprng)
+    current_attributes(run, cases, rows)
     run.traces += len(cases)
     run.sample({"case": cases[0], "spec_row": {"shape": rows[0]["shape"], "map_head": rows[0]["map"][:4]}})
     run.sample({"case": cases[1]})
